@@ -97,5 +97,10 @@ func Registry() []*Spec {
 		Quick: map[string]int{}, Thorough: map[string]int{"SLEN": 2, "KLEN": 2, "OMIT": 1, "BIGINT": 1},
 		Covers: []string{"done"}, UnitDepth: 5,
 		Note: "the C04 tree shapes (symbolic bool / int64 / short string leaves and keys) through sen.Writer under Sort x {tight, Indent 2, Tab} and back through sen.Parser"})
+	// ---- C17: streaming Match equals parse-then-locate
+	add(Spec{Property: "C17", Name: "VerifC17_Match", Pkg: "asm",
+		Quick: map[string]int{"NT": 1, "SPLIT": 0}, Thorough: map[string]int{"NT": 2, "SPLIT": 1},
+		Covers: []string{"some", "none"}, UnitDepth: 5,
+		Note: "oj.Match and oj.MatchLoad (1-byte reads, one symbolic split point) on 4 concrete document skeletons (depth <= 3) with symbolic digit leaves and 1..2 targets from 9 shapes (child, index, wildcard, descent, union, nested) with symbolic indexes in [0,4]: the callback sequence equals the outermost locations of the reference selector on the parsed document, in document order, with equal values"})
 	return r
 }
